@@ -1238,9 +1238,9 @@ func (m *membershipAllower) membershipAllowedSelf() error { // nolint: gocyclo
 			return nil
 		}
 
-		// A user that is not in the room is allowed to join if the room
-		// join rules are "public".
-		if m.oldMember.Membership == spec.Leave && m.effectiveJoinRule == spec.Public {
+		// A user that is not in the room (including one who has knocked) is
+		// allowed to join if the room join rules are "public".
+		if m.effectiveJoinRule == spec.Public {
 			return nil
 		}
 
